@@ -163,3 +163,65 @@ Proof.
     [HStart 1 0; HStart 2 0; HAcquire 1 1; HAcquire 1 1; HRelease 1 1; HAcquire 2 1; HAbort 1].
   exists (2, 1, 1). vm_compute. split; [auto | tauto].
 Qed.
+
+(* ---- the other public calls that release or end operations ---- *)
+Definition res2 : list (Z * bool) := [(1, false); (2, false)].
+
+(* op1 owns r1, op2 owns r2 and is BLOCKED on r1.  op1 gives everything back through
+   release_all_resources and stays alive: nobody waits on it any more.  It then blocks on r2: the
+   only wait is op1 -> op2, no deadlock (non-vacuity of c15_release_all_of_live_operation) *)
+Definition hist_bulk : list xop :=
+  map XHop [HStart 1 1; HStart 2 2; HAcquire 1 1; HAcquire 2 2; HAcquire 2 1].
+Definition xs_bulk : xstate := xrun current wprio (xinit res2) hist_bulk.
+
+Example ex_release_all_live :
+  In 1 (active (fst (fst xs_bulk))) /\
+  rec_edges (fst (fst xs_bulk)) = [(2, 1, 1)] /\
+  snd (xstep current wprio xs_bulk (XReleaseAll 1)) = [0] /\
+  let xs1 := fst (xstep current wprio xs_bulk (XReleaseAll 1)) in
+  active (fst (fst xs1)) = [1; 2] /\ owner (fst (fst xs1)) 1 = None /\ owner (fst (fst xs1)) 2 = Some 2 /\
+  rec_edges (fst (fst xs1)) = [] /\ ref_edges (fst xs1) = [] /\
+  snd (xstep current wprio xs1 (XHop (HAcquire 1 2))) = [1] /\
+  let xs2 := fst (xstep current wprio xs1 (XHop (HAcquire 1 2))) in
+  rec_edges (fst (fst xs2)) = [(1, 2, 2)] /\ ref_edges (fst xs2) = [(1, 2, 2)] /\
+  detect_cycle (edges (fst (fst xs2))) = None /\
+  (* re-entrant holds are dropped too; the releaser's own wait survives *)
+  let hs3 := map XHop [HStart 1 1; HStart 2 2; HAcquire 1 1; HAcquire 1 1; HAcquire 2 2; HAcquire 2 1; HAcquire 1 2] in
+  let xs3 := xrun current wprio (xinit res2) (hs3 ++ [XReleaseAll 1]) in
+  owner (fst (fst xs3)) 1 = None /\ rec_edges (fst (fst xs3)) = [(1, 2, 2)] /\ ref_edges (fst xs3) = [(1, 2, 2)] /\
+  detect_cycle (edges (fst (fst (xrun current wprio (xinit res2) hs3)))) = Some [2; 1].
+Proof. vm_compute. auto 20. Qed.
+
+(* shutdown in the three-party deadlock, with a boost outstanding *)
+Example ex_shutdown_clears :
+  let xs := xrun current wprio (xinit res3) (map XHop hist_ring ++ [XBoost]) in
+  snd xs <> [] /\ detect_cycle (edges (fst (fst xs))) = Some [1; 2; 3] /\
+  let xs' := fst (xstep current wprio xs XShutdown) in
+  active (fst (fst xs')) = [] /\ rec_edges (fst (fst xs')) = [] /\ snd (fst xs') = [] /\ snd xs' = [] /\
+  detect_cycle (edges (fst (fst xs'))) = None /\
+  map (fun rl : Z * lock => l_owner (snd rl)) (resources (fst (fst xs'))) = [None; None; None].
+Proof. vm_compute. repeat split; auto; discriminate. Qed.
+
+(* run_maintenance in the ring: op2 and op3 (priority 1) inherit 2 from op1, then the watchdog
+   finds all keys equal and takes the FIRST member, op1 - not op2 as without the boost
+   (ex_ring_victim): the keys are the priorities at the moment of the pass *)
+Example ex_maintenance :
+  let xs := xrun current wprio (xinit res3) (map XHop hist_ring) in
+  snd (xstep current wprio xs XMaintain) = [2; 2; 1; 2; 3; 1; 2; 1; 3] /\
+  let xs' := fst (xstep current wprio xs XMaintain) in
+  active (fst (fst xs')) = [2; 3] /\ rec_edges (fst (fst xs')) = [(2, 3, 3)] /\
+  ref_edges (fst xs') = [(2, 3, 3)] /\ detect_cycle (edges (fst (fst xs'))) = None /\
+  xs' = fst (xstep current wprio (fst (xstep current wprio xs XBoost)) (XHop HWatchdog)).
+Proof. vm_compute. auto 10. Qed.
+
+(* a resource registered while the history runs: unknown (code 9) before, acquired after;
+   registering changes no relation (prio_call) *)
+Example ex_register_late :
+  prio_call (XRegister 3 true) /\
+  snd (xstep current wprio xs_bulk (XHop (HAcquire 2 3))) = [9] /\
+  snd (xstep current wprio xs_bulk (XRegister 3 true)) = [0] /\
+  snd (xstep current wprio xs_bulk (XRegister 2 true)) = [-1] /\
+  let xs1 := fst (xstep current wprio xs_bulk (XRegister 3 true)) in
+  rec_edges (fst (fst xs1)) = [(2, 1, 1)] /\
+  snd (xstep current wprio xs1 (XHop (HAcquire 2 3))) = [0].
+Proof. vm_compute. auto 10. Qed.
